@@ -14,10 +14,11 @@ ELEMS = [_el.carbon, _el.nitrogen, _el.oxygen, _el.hydrogen, _el.sulfur]
 N_ATOMS, RES_OF = 5, [0, 0, 1, 2, 2]          # three residues of 2, 1, 2 atoms
 
 
-def _traj():
+def _traj(two_chains=False):
     top = Topology()
     ch = top.add_chain()
-    res = [top.add_residue("ALA", ch), top.add_residue("GLY", ch), top.add_residue("SER", ch)]
+    ch2 = top.add_chain() if two_chains else ch          # residue 1 and 2 in a second chain: residue indices stay GLOBAL
+    res = [top.add_residue("ALA", ch), top.add_residue("GLY", ch2), top.add_residue("SER", ch2)]
     for i in range(N_ATOMS):
         top.add_atom("A%d" % i, ELEMS[i], res[RES_OF[i]])
     xyz = np.arange(2 * N_ATOMS * 3, dtype=np.float32).reshape(2, N_ATOMS, 3)
@@ -42,7 +43,7 @@ class _Kernel:
                     out[f, atom_mapping[j]] += AREA[f, j]
 
 
-def bookkeeping(residue_mode: bool, use_idx: bool, k0: bool, k1: bool, k2: bool, k3: bool, k4: bool, probe10: int, override: bool, get_mapping: bool) -> bool:
+def bookkeeping(residue_mode: bool, use_idx: bool, k0: bool, k1: bool, k2: bool, k3: bool, k4: bool, probe10: int, override: bool, get_mapping: bool, two_chains: bool = False, primed: bool = False) -> bool:
     """
     pre: 0 <= probe10 <= 3
     pre: (not use_idx) or k0 or k1 or k2 or k3 or k4
@@ -51,7 +52,11 @@ def bookkeeping(residue_mode: bool, use_idx: bool, k0: bool, k1: bool, k2: bool,
     probe = conc(probe10, 0, 3) / 10.0
     k = _Kernel()
     _sasa._geometry = k
-    t = _traj()
+    t = _traj(two_chains)
+    if primed:
+        # a HISTORY: an earlier call on the same topology and probe with OTHER radii must leave nothing behind
+        _sasa.shrake_rupley(t, probe_radius=probe, n_sphere_points=7, change_radii={"C": 0.3, "N": 0.4} if not override else None)
+        del k.calls[:]
     idx = [i for i, b in enumerate((k0, k1, k2, k3, k4)) if b] if use_idx else None
     kw = {}
     if override:
